@@ -457,7 +457,16 @@ func (d *dagSvc) GetMany(ctx context.Context, cs []cid.Cid) <-chan *format.NodeO
 func (d *dagSvc) Remove(ctx context.Context, c cid.Cid) error {
 	d.s.mu.Lock()
 	defer d.s.mu.Unlock()
-	delete(d.s.blocks, c.KeyString())
+	if _, ok := d.s.blocks[c.KeyString()]; ok {
+		delete(d.s.blocks, c.KeyString())
+		for i, o := range d.s.order {
+			if o.Equals(c) {
+				d.s.order = append(d.s.order[:i:i], d.s.order[i+1:]...)
+				break
+			}
+		}
+		d.s.ev("remove", c, "")
+	}
 	return nil
 }
 
